@@ -107,7 +107,7 @@ def funptr_copy_rule(run, prog, RULE):
 def check(run, prog, tier):
     run.rule("C06-a", "release functions free every owning field of their record on every path (bypass only through the field's own NULL test); every pointer field of an owner record is classified", 14)
     run.rule("C06-c", "when a counted field is re-pointed (old = X->F; X->F = new; release(old)) the reference on the new value is taken before the old one is released", 1)
-    run.rule("C06-b", "every reference counter field (ref, refs, func_ref, extra_ref of the counted records) is at least 32 bits wide, or every increment of it is guarded by a test of the same counter (saturation)", 8)
+    run.rule("C06-b", "every reference counter field (ref, refs, func_ref, extra_ref of the counted records) is at least 32 bits wide: 2^16 holders of one value are within reach of one LPC program, where a plain narrow counter wraps (premature free) and a saturating one makes the value immortal (leak)", 8)
 
     recs = prog.records()
     for fname, rec, fields in OWNERS:
@@ -265,8 +265,11 @@ def check(run, prog, tier):
         if not lst:
             run.ob("C06-b", inst, True, "%d-bit counter %s.%s is never incremented directly" % (w, key[0], key[1]), file, line, None)
             continue
-        run.ob("C06-b", inst, not unguarded, "%d-bit counter %s.%s: %d increment site(s), %d without a saturation test%s" % (w, key[0], key[1], len(lst), len(unguarded), (" e.g. %s" % unguarded[:3]) if unguarded else ""),
-               file, line, None, what="%d-bit reference counter %s.%s wraps after 65536 holders (%d unguarded increment sites): the next release frees a value that is still referenced" % (w, key[0], key[1], len(unguarded)))
+        # 2^16 holders of one value are within reach of a single LPC program (an array of 65536 copies of one string
+        # is 1 MiB): an unguarded narrow counter wraps (premature free), a saturating one makes the value immortal (leak)
+        run.ob("C06-b", inst, False, "%d-bit counter %s.%s: %d increment site(s), %d without a saturation test%s; %s" % (w, key[0], key[1], len(lst), len(unguarded), (" e.g. %s" % unguarded[:3]) if unguarded else "",
+               "it wraps after 2^%d holders and the next release frees a value that is still referenced" % w if unguarded else "it saturates after 2^%d holders and the value is never released again" % w),
+               file, line, None, what="%d-bit reference counter %s.%s %s after 2^%d holders" % (w, key[0], key[1], "wraps (premature free)" if unguarded else "saturates (the value is never freed: leak)", w))
 
     # ---- C06-d partial release: free_called_call() does not release the argument array
     import callgraph
@@ -370,3 +373,8 @@ def check(run, prog, tier):
 
     run.rule("C06-e", FUNPTR_COPY_DESC, 1)
     funptr_copy_rule(run, prog, "C06-e")
+
+    # ---- C06-g values owned only by a C local do not live across an unprotected callback
+    run.rule("C06-g", "a counted value that only a C local owns (result of a function returning array_t*/mapping_t*/buffer_t*, or a reference taken by hand with ->ref++ and released by hand later) is anchored on the value stack, stored into reachable storage, returned or released before the function makes a call that runs LPC code outside a catch barrier: error() unwinds past C locals without releasing anything", 5)
+    import rules.C06g as c06g
+    c06g.check(run, prog, cg)
